@@ -144,49 +144,58 @@ Section K.
   (* the test of a bool-converted value, as a two-way branch on the Coq boolean *)
   Definition whenK (z : Z) (yes no : A) : A := if nonzero z then yes else no.
 
-  Fixpoint evalK (sp : string * string) (en : env) (e : expr) (k : eres -> A) {struct e} : A :=
+  Fixpoint evalK (ve : vecs) (sp : string * string) (en : env) (e : expr) (k : eres -> A) {struct e} : A :=
     match e with
-    | ECast t a => evalK sp en a (fun r => match r with EV (ta, z) => castK ta t z k | r => k r end)
-    | EUn o a => evalK sp en a (fun r => match r with EV v => unopK o v k | r => k r end)
+    | ECast t a => evalK ve sp en a (fun r => match r with EV (ta, z) => castK ta t z k | r => k r end)
+    | EUn o a => evalK ve sp en a (fun r => match r with EV v => unopK o v k | r => k r end)
     | EBin o a b =>
-        evalK sp en a (fun ra => match ra with
-          | EV va => evalK sp en b (fun rb => match rb with EV vb => binopK o va vb k | r => k r end)
+        evalK ve sp en a (fun ra => match ra with
+          | EV va => evalK ve sp en b (fun rb => match rb with EV vb => binopK o va vb k | r => k r end)
           | r => k r end)
     | ELAnd a b =>
-        evalK sp en a (fun ra => match ra with
-          | EV (_, za) => whenK za (evalK sp en b (fun rb => match rb with EV (_, zb) => k (EV (TBool, conv TBool zb)) | r => k r end))
+        evalK ve sp en a (fun ra => match ra with
+          | EV (_, za) => whenK za (evalK ve sp en b (fun rb => match rb with EV (_, zb) => k (EV (TBool, conv TBool zb)) | r => k r end))
                                    (k (EV (TBool, 0)))
           | r => k r end)
     | ELOr a b =>
-        evalK sp en a (fun ra => match ra with
+        evalK ve sp en a (fun ra => match ra with
           | EV (_, za) => whenK za (k (EV (TBool, 1)))
-                                   (evalK sp en b (fun rb => match rb with EV (_, zb) => k (EV (TBool, conv TBool zb)) | r => k r end))
+                                   (evalK ve sp en b (fun rb => match rb with EV (_, zb) => k (EV (TBool, conv TBool zb)) | r => k r end))
           | r => k r end)
     | ECond c a b =>
-        evalK sp en c (fun rc => match rc, type_of en e with
+        evalK ve sp en c (fun rc => match rc, type_of ve en e with
           | EV (_, zc), Some t =>
               let k' := fun r => match r with EV (_, z) => k (EV (t, conv t z)) | r => k r end in
-              whenK zc (evalK sp en a k') (evalK sp en b k')
+              whenK zc (evalK ve sp en a k') (evalK ve sp en b k')
           | EV _, None => k (EStuck "untypable ?:")
           | r, _ => k r end)
-    | _ => k (eval sp en e)
+    | EVecAt v i =>
+        match vlookup v ve with
+        | Some (t, l) => evalK ve sp en i (fun r => match r with
+            | EV (_, z) => if conv TULong z <? vec_len l then k (EV (t, vec_nth l (conv TULong z))) else k (EUB ub_index)
+            | r => k r end)
+        | None => k (EStuck ("unbound vector " ++ v))
+        end
+    | _ => k (eval ve sp en e)
     end.
 
-  Lemma evalK_ok sp en e : forall k, evalK sp en e k = k (eval sp en e).
+  Lemma evalK_ok ve sp en e : forall k, evalK ve sp en e k = k (eval ve sp en e).
   Proof.
     induction e; intros k; cbn [evalK eval]; try reflexivity.
-    - rewrite IHe. destruct (eval sp en e) as [[t' z]| |]; [apply castK_ok|reflexivity|reflexivity].
-    - rewrite IHe. destruct (eval sp en e) as [v| |]; [apply unopK_ok|reflexivity|reflexivity].
-    - rewrite IHe1. destruct (eval sp en e1) as [va| |]; try reflexivity.
-      rewrite IHe2. destruct (eval sp en e2) as [vb| |]; [apply binopK_ok|reflexivity|reflexivity].
-    - rewrite IHe1. destruct (eval sp en e1) as [[ta za]| |]; try reflexivity. unfold whenK.
-      destruct (nonzero za); [|reflexivity]. rewrite IHe2. destruct (eval sp en e2) as [[tb zb]| |]; reflexivity.
-    - rewrite IHe1. destruct (eval sp en e1) as [[ta za]| |]; try reflexivity. unfold whenK.
-      destruct (nonzero za); [reflexivity|]. rewrite IHe2. destruct (eval sp en e2) as [[tb zb]| |]; reflexivity.
-    - rewrite IHe1. destruct (eval sp en e1) as [[tc zc]| |]; try reflexivity.
-      destruct (type_of en (ECond e1 e2 e3)) as [t|]; [|reflexivity].
+    - rewrite IHe. destruct (eval ve sp en e) as [[t' z]| |]; [apply castK_ok|reflexivity|reflexivity].
+    - rewrite IHe. destruct (eval ve sp en e) as [v| |]; [apply unopK_ok|reflexivity|reflexivity].
+    - rewrite IHe1. destruct (eval ve sp en e1) as [va| |]; try reflexivity.
+      rewrite IHe2. destruct (eval ve sp en e2) as [vb| |]; [apply binopK_ok|reflexivity|reflexivity].
+    - rewrite IHe1. destruct (eval ve sp en e1) as [[ta za]| |]; try reflexivity. unfold whenK.
+      destruct (nonzero za); [|reflexivity]. rewrite IHe2. destruct (eval ve sp en e2) as [[tb zb]| |]; reflexivity.
+    - rewrite IHe1. destruct (eval ve sp en e1) as [[ta za]| |]; try reflexivity. unfold whenK.
+      destruct (nonzero za); [reflexivity|]. rewrite IHe2. destruct (eval ve sp en e2) as [[tb zb]| |]; reflexivity.
+    - rewrite IHe1. destruct (eval ve sp en e1) as [[tc zc]| |]; try reflexivity.
+      destruct (type_of ve en (ECond e1 e2 e3)) as [t|]; [|reflexivity].
       unfold whenK. destruct (nonzero zc); [rewrite IHe2|rewrite IHe3];
-        match goal with |- context [eval sp en ?x] => destruct (eval sp en x) as [[? ?]| |] end; reflexivity.
+        match goal with |- context [eval ve sp en ?x] => destruct (eval ve sp en x) as [[? ?]| |] end; reflexivity.
+    - destruct (vlookup v ve) as [[t l]|]; [|reflexivity]. rewrite IHe.
+      destruct (eval ve sp en e) as [[ti z]| |]; try reflexivity. unfold vec_at. destruct (conv TULong z <? vec_len l); reflexivity.
   Qed.
 
   Definition liftK (r : eres) (k : Z -> A) (done : result -> A) : A :=
@@ -195,60 +204,69 @@ Section K.
   Definition errK (r : eres) (k : value -> A) (done : result -> A) : A :=
     match r with EV v => k v | EUB w => done (RUB w) | EStuck w => done (RStuck w) end.
 
-  Fixpoint eval_argsK (sp : string * string) (en : env) (es : list expr) (k : result + list value -> A) : A :=
+  Fixpoint eval_argsK (ve : vecs) (sp : string * string) (en : env) (es : list expr) (k : result + list value -> A) : A :=
     match es with
     | [] => k (inr [])
-    | e :: r => evalK sp en e (fun x => match x with
-                  | EV v => eval_argsK sp en r (fun y => match y with inr vs => k (inr (v :: vs)) | inl z => k (inl z) end)
+    | e :: r => evalK ve sp en e (fun x => match x with
+                  | EV v => eval_argsK ve sp en r (fun y => match y with inr vs => k (inr (v :: vs)) | inl z => k (inl z) end)
                   | EUB w => k (inl (RUB w))
                   | EStuck w => k (inl (RStuck w))
                   end)
     end.
-  Lemma eval_argsK_ok sp en es : forall k, eval_argsK sp en es k = k (eval_args sp en es).
+  Lemma eval_argsK_ok ve sp en es : forall k, eval_argsK ve sp en es k = k (eval_args ve sp en es).
   Proof.
     induction es as [|e r IH]; intros k; cbn [eval_argsK eval_args]; [reflexivity|].
-    rewrite evalK_ok. destruct (eval sp en e) as [v| |]; try reflexivity.
-    rewrite IH. destruct (eval_args sp en r); reflexivity.
+    rewrite evalK_ok. destruct (eval ve sp en e) as [v| |]; try reflexivity.
+    rewrite IH. destruct (eval_args ve sp en r); reflexivity.
   Qed.
 
+  (* a loop is not opened: its outcome is handed to the continuations as it is (the proofs about a function with a loop
+     treat the loop by induction and use the trees only for the loop-free pieces) *)
+  Definition whileK (ve : vecs) (fuel : nat) (sp : string * string) (rt : ity) (c : expr) (b : stmt) (en : env)
+                    (next : env -> A) (done : result -> A) : A :=
+    match exec ve fuel sp rt en (SWhile c b) with ONext en' => next en' | ODone r => done r end.
+
   (* [next] continues after the statement, [done] leaves the function *)
-  Fixpoint execK (sp : string * string) (rt : ity) (en : env) (s : stmt) (next : env -> A) (done : result -> A) : A :=
+  Fixpoint execK (ve : vecs) (fuel : nat) (sp : string * string) (rt : ity) (en : env) (s : stmt) (next : env -> A) (done : result -> A) : A :=
     match s with
     | SSkip | SEffect _ => next en
-    | SSeq a b => execK sp rt en a (fun en' => execK sp rt en' b next done) done
-    | SReturn e => evalK sp en e (fun r => match r with
+    | SSeq a b => execK ve fuel sp rt en a (fun en' => execK ve fuel sp rt en' b next done) done
+    | SReturn e => evalK ve sp en e (fun r => match r with
         | EV (te, z) => castK te rt z (fun c => done (match c with EV v => RVal v | EUB w => RUB w | EStuck w => RStuck w end))
         | EUB w => done (RUB w) | EStuck w => done (RStuck w) end)
-    | SThrow m => done (match msg_text sp m with Some t => RThrow t | None => RStuck "exception text" end)
+    | SThrow m => done (match msg_text ve sp en m with Some t => RThrow t | None => RStuck "exception text" end)
     | SIf c a b =>
-        evalK sp en c (fun r => liftK r (fun z =>
-          whenK z (execK sp rt en a (fun en' => next (leave en en')) done)
-                  (execK sp rt en b (fun en' => next (leave en en')) done)) done)
-    | SDecl t x e => evalK sp en e (fun r => match r with
+        evalK ve sp en c (fun r => liftK r (fun z =>
+          whenK z (execK ve fuel sp rt en a (fun en' => next (leave en en')) done)
+                  (execK ve fuel sp rt en b (fun en' => next (leave en en')) done)) done)
+    | SDecl t x e => evalK ve sp en e (fun r => match r with
         | EV (te, z) => castK te t z (fun c => errK c (fun v => next ((x, v) :: en)) done)
         | EUB w => done (RUB w) | EStuck w => done (RStuck w) end)
-    | SAssign x e => evalK sp en e (fun r => match r, lookup x en with
+    | SAssign x e => evalK ve sp en e (fun r => match r, lookup x en with
         | EV (te, z), Some (t, _) => castK te t z (fun c => errK c (fun v => next (update x v en)) done)
         | EV _, None => done (RStuck ("assignment to the unbound name " ++ x))
         | EUB w, _ => done (RUB w) | EStuck w, _ => done (RStuck w) end)
     | SReturnVoid => done RVoid
-    | SReturnCall tag es => eval_argsK sp en es (fun r => done (match r with inr vs => RCall tag vs | inl r => r end))
+    | SReturnCall tag es => eval_argsK ve sp en es (fun r => done (match r with inr vs => RCall tag vs | inl r => r end))
+    | SBlock a => execK ve fuel sp rt en a (fun en' => next (leave en en')) done
+    | SWhile c b => whileK ve fuel sp rt c b en next done
     end.
 
-  Lemma execK_ok sp rt s : forall en next done,
-    execK sp rt en s next done = match exec sp rt en s with ONext en' => next en' | ODone r => done r end.
+  Lemma execK_ok ve fuel sp rt s : forall en next done,
+    execK ve fuel sp rt en s next done = match exec ve fuel sp rt en s with ONext en' => next en' | ODone r => done r end.
   Proof.
     induction s; intros en next done; cbn [execK exec]; try reflexivity.
-    - rewrite IHs1. destruct (exec sp rt en s1); [apply IHs2|reflexivity].
-    - rewrite evalK_ok. destruct (eval sp en e) as [[t z]| |]; try reflexivity. rewrite castK_ok. reflexivity.
-    - rewrite evalK_ok. destruct (eval sp en c) as [[t z]| |]; cbn [liftK lift]; try reflexivity.
-      unfold whenK. destruct (nonzero z); [rewrite IHs1; destruct (exec sp rt en s1)|rewrite IHs2; destruct (exec sp rt en s2)];
+    - rewrite IHs1. destruct (exec ve fuel sp rt en s1); [apply IHs2|reflexivity].
+    - rewrite evalK_ok. destruct (eval ve sp en e) as [[t z]| |]; try reflexivity. rewrite castK_ok. reflexivity.
+    - rewrite evalK_ok. destruct (eval ve sp en c) as [[t z]| |]; cbn [liftK lift]; try reflexivity.
+      unfold whenK. destruct (nonzero z); [rewrite IHs1; destruct (exec ve fuel sp rt en s1)|rewrite IHs2; destruct (exec ve fuel sp rt en s2)];
         reflexivity.
-    - rewrite evalK_ok. destruct (eval sp en e) as [[t' z]| |]; try reflexivity. rewrite castK_ok.
+    - rewrite evalK_ok. destruct (eval ve sp en e) as [[t' z]| |]; try reflexivity. rewrite castK_ok.
       destruct (cast t' t z); reflexivity.
-    - rewrite evalK_ok. destruct (eval sp en e) as [[t' z]| |]; try reflexivity.
+    - rewrite evalK_ok. destruct (eval ve sp en e) as [[t' z]| |]; try reflexivity.
       destruct (lookup x en) as [[t w]|]; [|reflexivity]. rewrite castK_ok. destruct (cast t' t z); reflexivity.
     - rewrite eval_argsK_ok. reflexivity.
+    - rewrite IHs. destruct (exec ve fuel sp rt en s); reflexivity.
   Qed.
 
   Fixpoint bindK (ps : list (string * ity)) (args : list (string * value)) (k : option env -> A) : A :=
@@ -275,17 +293,58 @@ Section K.
   Definition runK (f : fn) (op : string) (args : list (string * value)) (k : result -> A) : A :=
     bindK (f_params f) args (fun r => match r with
       | None => k (RStuck "arguments do not match the parameters")
-      | Some en => execK (f_sparam f, op) (f_ret f) en (f_body f) (fun _ => k RFallOff) k
+      | Some en => execK [] 0 (f_sparam f, op) (f_ret f) en (f_body f) (fun _ => k RFallOff) k
       end).
   Lemma runK_ok f op args k : runK f op args k = k (run f op args).
   Proof.
     unfold runK, run. rewrite bindK_ok. destruct (bind (f_params f) args); [|reflexivity].
-    rewrite execK_ok. destruct (exec _ _ _ _); reflexivity.
+    rewrite execK_ok. destruct (exec _ _ _ _ _ _); reflexivity.
   Qed.
 End K.
 
 Lemma run_as_tree f op args : run f op args = runK f op args (fun r => r).
 Proof. symmetry. apply (runK_ok (A := result)). Qed.
+
+(* ---------------------------------------------------------------- 2a. loops
+   [exec] of a while statement is [while_loop] started with the full fuel; [while_loop] is the object of the inductions in the
+   proofs about functions with a loop (the trees are used for the condition and for the body). *)
+Section While.
+  Variables (ve : vecs) (fuel : nat) (sp : string * string) (rt : ity) (c : expr) (b : stmt).
+  Fixpoint while_loop (n : nat) (en : env) {struct n} : outcome :=
+    match n with
+    | O => ODone RNoFuel
+    | S n' => lift (eval ve sp en c) (fun z =>
+                if nonzero z
+                then match exec ve fuel sp rt en b with ONext en' => while_loop n' (leave en en') | d => d end
+                else ONext en)
+    end.
+End While.
+Lemma exec_while ve fuel sp rt en c b : exec ve fuel sp rt en (SWhile c b) = while_loop ve fuel sp rt c b fuel en.
+Proof. reflexivity. Qed.
+Lemma while_loop_S ve fuel sp rt c b n en :
+  while_loop ve fuel sp rt c b (S n) en =
+  lift (eval ve sp en c) (fun z =>
+    if nonzero z then match exec ve fuel sp rt en b with ONext en' => while_loop ve fuel sp rt c b n (leave en en') | d => d end
+    else ONext en).
+Proof. reflexivity. Qed.
+(* the loop-free pieces as trees *)
+Lemma eval_as_tree ve sp en e : eval ve sp en e = evalK ve sp en e (fun r => r).
+Proof. symmetry. apply (evalK_ok (A := eres)). Qed.
+Lemma exec_as_tree ve fuel sp rt en s : exec ve fuel sp rt en s = execK ve fuel sp rt en s ONext ODone.
+Proof. rewrite (execK_ok (A := outcome)). destruct (exec ve fuel sp rt en s); reflexivity. Qed.
+
+(* a function with vector parameters: the arguments are taken as they are once they are known to be well formed *)
+Definition run_vecK {A : Type} (fuel : nat) (f : vfn) (op : string) (ve : vecs) (args : list (string * value)) (k : result -> A) : A :=
+  bindK (f_params (v_fn f)) args (fun r => match r with
+    | None => k (RStuck "arguments do not match the parameters")
+    | Some en => execK ve fuel (f_sparam (v_fn f), op) (f_ret (v_fn f)) en (f_body (v_fn f)) (fun _ => k RFallOff) k
+    end).
+Lemma run_vec_as_tree fuel f op vargs args : bind_vecs (v_vecs f) vargs = Some vargs ->
+  run_vec fuel f op vargs args = run_vecK fuel f op vargs args (fun r => r).
+Proof.
+  intros Hb. unfold run_vec, run_vecK. rewrite Hb, (bindK_ok (A := result)). destruct (bind _ args); [|reflexivity].
+  rewrite (execK_ok (A := result)). destruct (exec _ _ _ _ _ _); reflexivity.
+Qed.
 
 (* ---------------------------------------------------------------- 2b. a value returned by ANY function of the fragment
    has the declared return type and lies inside it *)
@@ -295,52 +354,64 @@ Proof.
   - destruct (in_range t z) eqn:E; [|discriminate]. intros H. injection H as <-. auto.
   - intros H. injection H as <-. split; [reflexivity|apply conv_in_range; exact Ht].
 Qed.
-Lemma eval_args_errors sp en es r : eval_args sp en es = inl r -> (exists w, r = RUB w) \/ (exists w, r = RStuck w).
+Lemma eval_args_errors ve sp en es r : eval_args ve sp en es = inl r -> (exists w, r = RUB w) \/ (exists w, r = RStuck w).
 Proof.
   revert r. induction es as [|e es IH]; intros r; cbn [eval_args]; [discriminate|].
-  destruct (eval sp en e); [|intros H; injection H as <-; eauto..].
-  destruct (eval_args sp en es); [intros H; injection H as <-; apply IH; reflexivity|discriminate].
+  destruct (eval ve sp en e); [|intros H; injection H as <-; eauto..].
+  destruct (eval_args ve sp en es); [intros H; injection H as <-; apply IH; reflexivity|discriminate].
 Qed.
-Lemma exec_returns_in_range sp rt s : is_ld rt = false ->
-  forall en ty z, exec sp rt en s = ODone (RVal (ty, z)) -> ty = rt /\ in_range rt z = true.
+Lemma exec_returns_in_range ve fuel sp rt s : is_ld rt = false ->
+  forall en ty z, exec ve fuel sp rt en s = ODone (RVal (ty, z)) -> ty = rt /\ in_range rt z = true.
 Proof.
   intros Hrt. induction s; intros en ty z; cbn [exec]; try discriminate.
-  - destruct (exec sp rt en s1) eqn:E1; [apply IHs2|intros H; injection H as ->; eapply IHs1; eassumption].
-  - destruct (eval sp en e) as [[t' z']| |]; try discriminate.
+  - destruct (exec ve fuel sp rt en s1) eqn:E1; [apply IHs2|intros H; injection H as ->; eapply IHs1; eassumption].
+  - destruct (eval ve sp en e) as [[t' z']| |]; try discriminate.
     destruct (cast t' rt z') eqn:E; try discriminate. intros H. injection H as ->.
     apply cast_in_range in E; [exact E|exact Hrt].
-  - destruct (msg_text sp m); discriminate.
-  - destruct (eval sp en c) as [[t' z']| |]; cbn [lift]; try discriminate.
+  - destruct (msg_text ve sp en m); discriminate.
+  - destruct (eval ve sp en c) as [[t' z']| |]; cbn [lift]; try discriminate.
     destruct (nonzero z').
-    + destruct (exec sp rt en s1) eqn:E1; [discriminate|]. intros H. injection H as ->. eapply IHs1; eassumption.
-    + destruct (exec sp rt en s2) eqn:E2; [discriminate|]. intros H. injection H as ->. eapply IHs2; eassumption.
-  - destruct (eval sp en e) as [[t' z']| |]; try discriminate. destruct (cast t' t z'); discriminate.
-  - destruct (eval sp en e) as [[t' z']| |]; try discriminate.
+    + destruct (exec ve fuel sp rt en s1) eqn:E1; [discriminate|]. intros H. injection H as ->. eapply IHs1; eassumption.
+    + destruct (exec ve fuel sp rt en s2) eqn:E2; [discriminate|]. intros H. injection H as ->. eapply IHs2; eassumption.
+  - destruct (eval ve sp en e) as [[t' z']| |]; try discriminate. destruct (cast t' t z'); discriminate.
+  - destruct (eval ve sp en e) as [[t' z']| |]; try discriminate.
     destruct (lookup x en) as [[t w]|]; [|discriminate]. destruct (cast t' t z'); discriminate.
-  - destruct (eval_args sp en args) eqn:E; [|discriminate].
+  - destruct (eval_args ve sp en args) eqn:E; [|discriminate].
     apply eval_args_errors in E as [[w ->] | [w ->]]; discriminate.
+  - destruct (exec ve fuel sp rt en s) eqn:E1; [discriminate|]. intros H. injection H as ->. eapply IHs; eassumption.
+  - match goal with |- ?loop fuel en = _ -> _ => set (L := loop); generalize fuel at 1 end.
+    intros n. revert en. induction n as [|n IHn]; intros en; cbn [L]; [discriminate|]. fold L.
+    destruct (eval ve sp en c) as [[t' z']| |]; cbn [lift]; try discriminate.
+    destruct (nonzero z'); [|discriminate].
+    destruct (exec ve fuel sp rt en s) eqn:E1; [apply IHn|]. intros H. injection H as ->. eapply IHs; eassumption.
 Qed.
 Lemma run_returns_in_range f op args t z : is_ld (f_ret f) = false ->
   run f op args = RVal (t, z) -> t = f_ret f /\ in_range (f_ret f) z = true.
 Proof.
   intros Hr. unfold run. destruct (bind (f_params f) args); [|discriminate].
-  destruct (exec _ _ _ _) eqn:E; [discriminate|]. intros ->. eapply exec_returns_in_range; eassumption.
+  destruct (exec _ _ _ _ _ _) eqn:E; [discriminate|]. intros ->. eapply exec_returns_in_range; eassumption.
+Qed.
+Lemma run_vec_returns_in_range fuel f op vargs args t z : is_ld (f_ret (v_fn f)) = false ->
+  run_vec fuel f op vargs args = RVal (t, z) -> t = f_ret (v_fn f) /\ in_range (f_ret (v_fn f)) z = true.
+Proof.
+  intros Hr. unfold run_vec. destruct (bind_vecs _ _); [|discriminate]. destruct (bind _ _); [|discriminate].
+  destruct (exec _ _ _ _ _ _) eqn:E; [discriminate|]. intros ->. eapply exec_returns_in_range; eassumption.
 Qed.
 
 (* ---------------------------------------------------------------- 3. tactics
    [cxx_tree]: rewrite the goal's [run f op args] (f, op and the shape of args concrete, operand values symbolic) into its
    decision tree.  [cxx_tree_sym]: the same with the operator string symbolic ([op_is] is kept folded).
    [cxx_cases]: split the tree along its tests, innermost test first, folding closed arithmetic on the way. *)
-Ltac cxx_norm := cbv -[Z.add Z.sub Z.mul Z.opp Z.quot Z.rem Z.div Z.modulo Z.pow Z.land Z.lor Z.lxor Z.eqb Z.leb Z.ltb ld_round].
+Ltac cxx_norm := cbv -[Z.add Z.sub Z.mul Z.opp Z.quot Z.rem Z.div Z.modulo Z.pow Z.land Z.lor Z.lxor Z.eqb Z.leb Z.ltb ld_round whileK vec_len vec_nth dec_string].
 Ltac cxx_norm_sym :=
-  cbv -[Z.add Z.sub Z.mul Z.opp Z.quot Z.rem Z.div Z.modulo Z.pow Z.land Z.lor Z.lxor Z.eqb Z.leb Z.ltb ld_round op_is].
+  cbv -[Z.add Z.sub Z.mul Z.opp Z.quot Z.rem Z.div Z.modulo Z.pow Z.land Z.lor Z.lxor Z.eqb Z.leb Z.ltb ld_round op_is whileK vec_len vec_nth dec_string].
 (* only the call is normalised, the rest of the goal is left as written *)
 Ltac cxx_tree :=
   rewrite run_as_tree;
   match goal with
   | |- context [@runK ?A ?f ?op ?args ?k] =>
       let t := constr:(@runK A f op args k) in
-      let t' := eval cbv -[Z.add Z.sub Z.mul Z.opp Z.quot Z.rem Z.div Z.modulo Z.pow Z.land Z.lor Z.lxor Z.eqb Z.leb Z.ltb ld_round] in t in
+      let t' := eval cbv -[Z.add Z.sub Z.mul Z.opp Z.quot Z.rem Z.div Z.modulo Z.pow Z.land Z.lor Z.lxor Z.eqb Z.leb Z.ltb ld_round whileK vec_len vec_nth dec_string] in t in
       change t with t'
   end.
 Ltac cxx_tree_sym :=
@@ -348,7 +419,16 @@ Ltac cxx_tree_sym :=
   match goal with
   | |- context [@runK ?A ?f ?op ?args ?k] =>
       let t := constr:(@runK A f op args k) in
-      let t' := eval cbv -[Z.add Z.sub Z.mul Z.opp Z.quot Z.rem Z.div Z.modulo Z.pow Z.land Z.lor Z.lxor Z.eqb Z.leb Z.ltb ld_round op_is] in t in
+      let t' := eval cbv -[Z.add Z.sub Z.mul Z.opp Z.quot Z.rem Z.div Z.modulo Z.pow Z.land Z.lor Z.lxor Z.eqb Z.leb Z.ltb ld_round op_is whileK vec_len vec_nth dec_string] in t in
+      change t with t'
+  end.
+
+(* the same for [run_vecK fuel f op vectors args k] (vector contents symbolic, loops left as [whileK]) *)
+Ltac cxx_vtree :=
+  match goal with
+  | |- context [@run_vecK ?A ?fuel ?f ?op ?ve ?args ?k] =>
+      let t := constr:(@run_vecK A fuel f op ve args k) in
+      let t' := eval cbv -[Z.add Z.sub Z.mul Z.opp Z.quot Z.rem Z.div Z.modulo Z.pow Z.land Z.lor Z.lxor Z.eqb Z.leb Z.ltb ld_round whileK vec_len vec_nth dec_string] in t in
       change t with t'
   end.
 
